@@ -11,7 +11,7 @@ use petgraph::{Directed, Undirected};
 use std::hash::Hash;
 use std::panic::{catch_unwind, AssertUnwindSafe};
 
-fn q_dom<G>(g: G, q: &GOp) -> Option<Vec<String>>
+pub fn q_dom<G>(g: G, q: &GOp) -> Option<Vec<String>>
 where G: GraphRef + IntoNeighbors + Visitable + NodeIndexable + IntoNodeIdentifiers, G::NodeId: Eq + Hash {
     if q.0 != "simple_fast" { return None; }
     let ix = |x: G::NodeId| g.to_index(x) as i64;
@@ -37,7 +37,7 @@ where G: GraphRef + IntoNeighbors + Visitable + NodeIndexable + IntoNodeIdentifi
     Some(v)
 }
 
-fn q_art<G>(g: G, q: &GOp) -> Option<Vec<String>>
+pub fn q_art<G>(g: G, q: &GOp) -> Option<Vec<String>>
 where G: GraphRef + IntoNodeReferences + IntoEdges + NodeIndexable + GraphProp, G::NodeWeight: Clone, G::EdgeWeight: Clone + PartialOrd, G::NodeId: Eq + Hash {
     if q.0 != "articulation_points" { return None; }
     let mut v: Vec<i64> = algo::articulation_points::articulation_points(g).into_iter().map(|x| g.to_index(x) as i64).collect();
